@@ -390,6 +390,30 @@ def standin_sampling_statistics(tier, seed):
                         continue
         if len(fails) >= 4:
             break
+    # whole runs (repetitions of a circuit with resets, mid-circuit measurements and feed-forward) through every stabilizer sampler:
+    # per-repetition randomness includes the branch a RESET selects, not only measurement results
+    from contracts import refsim
+
+    runs = {
+        "Bell, reset one half, measure the other": cirq.Circuit(cirq.H(q[0]), cirq.CNOT(q[0], q[1]), cirq.reset(q[0]), cirq.measure(q[1], key="m")),
+        "GHZ, reset the middle, measure the ends": cirq.Circuit(cirq.H(q[0]), cirq.CNOT(q[0], q[1]), cirq.CNOT(q[1], q[2]), cirq.reset(q[1]), cirq.measure(q[0], q[2], key="m")),
+        "|+>, reset, H, measure": cirq.Circuit(cirq.H(q[0]), cirq.reset(q[0]), cirq.H(q[0]), cirq.measure(q[0], key="m")),
+        "Bell, measure one, feed forward": cirq.Circuit(cirq.H(q[0]), cirq.CNOT(q[0], q[1]), cirq.measure(q[0], key="a"), cirq.X(q[1]).with_classical_controls("a"), cirq.H(q[2]), cirq.measure(q[1], q[2], key="m")),
+        "reset of an entangled qubit after a measurement": cirq.Circuit(cirq.H(q[0]), cirq.measure(q[0], key="a"), cirq.H(q[1]), cirq.CNOT(q[1], q[2]), cirq.reset(q[1]), cirq.measure(q[2], key="m")),
+    }
+    for label, circ in runs.items():
+        qs_ = sorted(circ.all_qubits())
+        want = {}
+        for rec, p in refsim.ref_distribution(circ, qs_).items():
+            kk = tuple(int(d) for _, rows in rec for row in rows for d in row)
+            want[kk] = want.get(kk, 0.0) + p
+        for how, mk in (("StabilizerSampler", lambda sd: cirq.StabilizerSampler(seed=sd)), ("CliffordSimulator", lambda sd: cirq.CliffordSimulator(seed=sd)),
+                        ("CliffordSimulator(split_untangled_states=False)", lambda sd: cirq.CliffordSimulator(seed=sd, split_untangled_states=False))):
+            for sd in (0, 1234) if tier == "quick" else (0, 7, 1234, None):
+                res = mk(sd).run(circ, repetitions=N)
+                keys = sorted(res.records)
+                rows = np.concatenate([res.records[k].reshape(N, -1) for k in keys], axis=1)
+                judge(label, f"{how}.run(seed={sd!r})", tally(rows), want)
     seen, uniq = set(), []
     for f in fails:
         k = f["args"]["entry_point"].split("(seed")[0]
@@ -397,12 +421,55 @@ def standin_sampling_statistics(tier, seed):
             seen.add(k)
             uniq.append(f)
     return dict(function="cirq-core/cirq/qis/quantum_state_representation.py:QuantumStateRepresentation.sample + sim step.sample", case="sampling-statistics",
-                bound=f"4 stabilizer states x integer / None / RandomState seeds x tableau, CH form, their simulation states and 3 simulators' step results (joint and split); {N} repetitions, 6-sigma bounds",
+                bound=f"4 stabilizer states x integer / None / RandomState seeds x tableau, CH form, their simulation states and 3 simulators' step results (joint and split); 5 circuits with resets / mid-circuit measurements / feed-forward run through StabilizerSampler and CliffordSimulator; {N} repetitions, 6-sigma bounds",
                 cases=cases, distinct=cases, failures=len(fails), exhaustive=False, _fails=uniq[:4])
 standin_sampling_statistics.prop = "C13"
 
 
-STANDINS = [standin_clifford_circuits, standin_single_qubit_group, standin_rowsum, standin_tableau_measure, standin_sampling_statistics]
+def standin_clifford_state_maps(tier, seed):
+    """cirq.CliffordState: the axis of a qubit is the index its qubit_map gives, whatever the order the map was written in"""
+    import cirq
+    from contracts import refsim
+
+    rng = random.Random(seed)
+    cases, fails = 0, []
+    q = cirq.LineQubit.range(3)
+    gates1, gates2 = [cirq.X, cirq.Y, cirq.Z, cirq.H, cirq.S], [cirq.CNOT, cirq.CZ]
+    for _ in range(30 if tier == "quick" else 300):
+        n = rng.choice([2, 3])
+        qs = list(q[:n])
+        axes = rng.sample(range(n), n)                      # qubit -> axis, any permutation
+        items = list(zip(qs, axes))
+        rng.shuffle(items)                                  # written in any order
+        ops = []
+        for _ in range(rng.randrange(1, 6)):
+            ops.append(rng.choice(gates1)(rng.choice(qs)) if rng.random() < 0.6 else rng.choice(gates2)(*rng.sample(qs, 2)))
+        st = cirq.CliffordState(qubit_map=dict(items))
+        for op in ops:
+            st.apply_unitary(op)
+        order = [x for x, _ in sorted(zip(qs, axes), key=lambda t: t[1])]
+        want = refsim.ref_unitary(cirq.Circuit(ops), order)[:, 0]
+        cases += 1
+        if not np.allclose(st.state_vector(), want, atol=1e-7):
+            fails.append(dict(args=dict(qubit_map=repr(dict(items)), operations=repr(ops)), failed="clifford-state-axes", clause="state_vector() is the circuit's state with each qubit on the axis its qubit_map names"))
+            continue
+        # a measurement of a basis state reads the digits of the named qubits, in the order the measurement lists them
+        st2 = cirq.CliffordState(qubit_map=dict(items))
+        flips = [x for x in qs if rng.random() < 0.5]
+        for x in flips:
+            st2.apply_unitary(cirq.X(x))
+        mq = rng.sample(qs, rng.randrange(1, n + 1))
+        rec = {}
+        st2.apply_measurement(cirq.measure(*mq, key="k"), rec, np.random.RandomState(0))
+        cases += 1
+        if [int(b) for b in rec["k"]] != [int(x in flips) for x in mq]:
+            fails.append(dict(args=dict(qubit_map=repr(dict(items)), flipped=repr(flips), measured=repr(mq), got=[int(b) for b in rec["k"]]), failed="clifford-state-measure", clause="measuring a basis state returns the bits of the measured qubits"))
+    return dict(function="cirq-core/cirq/sim/clifford/clifford_simulator.py:CliffordState", case="clifford-state-maps", bound="seeded 2-3 qubit Clifford sequences x every qubit->axis permutation x shuffled map order",
+                cases=cases, distinct=cases, failures=len(fails), exhaustive=False, _fails=fails[:3])
+standin_clifford_state_maps.prop = "C13"
+
+
+STANDINS = [standin_clifford_circuits, standin_single_qubit_group, standin_rowsum, standin_tableau_measure, standin_sampling_statistics, standin_clifford_state_maps]
 
 
 def _replay_tableau(ob, seed):
